@@ -544,6 +544,7 @@ def partition(feed, top, bottom, IDs, K, phi=None, top_chemicals=None,
     feed_mol = feed.mol
     mol = feed.imol[IDs]
     F_mol = mol.sum()
+    bottom.empty() # Material from a previous call must not be subtracted from the top
     if top_chemicals:
         top.imol[top_chemicals] = top_flows = feed.imol[top_chemicals]
         bottom.imol[top_chemicals] = 0
